@@ -79,9 +79,13 @@ func runCaseFull(c *Case) (tr Trace) {
 			tr.Err = fmt.Sprint("harness panic: ", p)
 		}
 	}()
-	r := &runner{c: c, fns: map[int]*Fn{}, execs: map[int]int{}}
+	r := &runner{c: c, fns: map[int]*Fn{}, execs: map[int]int{}, poolFn: map[int]*Fn{}}
+	curRunner = r
 	for i := range c.Fns {
 		r.fns[c.Fns[i].ID] = &c.Fns[i]
+		if c.Fns[i].Pool != nil {
+			r.poolFn[*c.Fns[i].Pool] = &c.Fns[i]
+		}
 	}
 	clockOpt, advance := dig.VerifMockClock()
 	r.advance = advance
@@ -137,8 +141,13 @@ func runCaseFull(c *Case) (tr Trace) {
 			if f.Info {
 				po = append(po, dig.FillProvideInfo(&info))
 			}
-			fv := r.makeFunc(f, "ctor")
-			ot.Verdict = guard(func() error { return apis[op.Scope].provide(fv.Interface(), po...) })
+			var fn interface{}
+			if f.Pool != nil {
+				fn = poolFuncs[*f.Pool]
+			} else {
+				fn = r.makeFunc(f, "ctor").Interface()
+			}
+			ot.Verdict = guard(func() error { return apis[op.Scope].provide(fn, po...) })
 			if f.Info {
 				ot.Info = &Info{Inputs: strs(info.Inputs), Outputs: strs(info.Outputs)}
 			}
@@ -165,7 +174,18 @@ func runCaseFull(c *Case) (tr Trace) {
 				io = append(io, dig.FillInvokeInfo(&info))
 			}
 			fv := r.makeFunc(f, "inv")
-			ot.Verdict = guard(func() error { return apis[op.Scope].invoke(fv.Interface(), io...) })
+			var ierr error
+			ot.Verdict = guard(func() error { ierr = apis[op.Scope].invoke(fv.Interface(), io...); return ierr })
+			if c.Viz && ierr != nil {
+				saved := r.events
+				var b bytes.Buffer
+				if noPanic(func() { dig.Visualize(r.cont, &b, dig.VisualizeError(ierr)) }) {
+					ot.DotErr = b.String()
+				} else {
+					ot.DotErr = "PANIC"
+				}
+				r.events = saved
+			}
 			if f.Info {
 				ot.Info = &Info{Inputs: strs(info.Inputs), Outputs: []string{}}
 			}
@@ -214,7 +234,11 @@ func runCaseFull(c *Case) (tr Trace) {
 			ot.Events = []Event{}
 		}
 		r.events = nil
-		ot.VizOK = noPanic(func() { dig.Visualize(r.cont, &bytes.Buffer{}) })
+		var vb bytes.Buffer
+		ot.VizOK = noPanic(func() { dig.Visualize(r.cont, &vb) })
+		if c.Viz {
+			ot.Dot = vb.String()
+		}
 		ot.StrOK = noPanic(func() {
 			for _, a := range apis {
 				_ = a.str()
